@@ -306,7 +306,7 @@ def run_check(pid: str, tier: str, seed: int, jobs: int = 16) -> int:
         sim_time += a["sim_time"]
         viols.extend(a["viol"])
         for h in a["harness"]:
-            harness_msgs.append(f"scenario {h['index']}: {h['error']}"[:3000])
+            harness_msgs.append(f"scenario {h['index']}: " + " | ".join(str(h["error"]).strip().splitlines()[-6:])[:700])
     skipped = sum(a["skipped"] for a in aggs)
 
     # determinism verdict
@@ -395,8 +395,10 @@ def run_check(pid: str, tier: str, seed: int, jobs: int = 16) -> int:
         f"violations={reported} known={len(printed_known)} wall={wall_s:.1f}s runs/h={runs_per_hour:.0f}"
     )
     if harness_msgs:
-        for m in harness_msgs[:10]:
-            print("HARNESS-ERROR " + m.replace("\n", " | ")[:2500])
+        for m in harness_msgs[:6]:
+            print("HARNESS-ERROR " + m.replace("\n", " | ")[:900])
+        if len(harness_msgs) > 6:
+            print(f"HARNESS-ERROR ... and {len(harness_msgs) - 6} more")
         if rc == 0:
             rc = 2
     if evaluations == 0 and rc == 0:
